@@ -86,7 +86,8 @@ class C10(Check):
     theorems = ["Pox.C10.ctl_terminates", "Pox.C10.sw_terminates", "Pox.C10.ctl_unguarded_spins", "Pox.C10.sw_contained",
                 "Pox.C10.siblings_untouched", "Pox.C10.ctl_no_overread", "Pox.C10.sw_no_overread",
                 "Pox.C10.ctl_disconnect_stops", "Pox.C10.ctl_no_disconnect_same", "Pox.C10.ctl_disconnect_persists",
-                "Pox.C10.sw_trace_is_feed", "Pox.C10.sw_answered_or_closed", "Pox.C10.sw_replies_only_for_skips"]
+                "Pox.C10.sw_trace_is_feed", "Pox.C10.sw_answered_or_closed", "Pox.C10.sw_replies_only_for_skips",
+                "Pox.C10.ctl_trace_is_feed", "Pox.C10.ctl_accounted", "Pox.C10.ctl_task_contained", "Pox.C10.sw_deliver_window_only"]
     anchors = [("pox/openflow/of_01.py", "Connection.read"), ("pox/openflow/of_01.py", "OpenFlow_01_Task.run"),
                ("pox/datapaths/switch.py", "OFConnection.read"), ("pox/datapaths/switch.py", "OFConnection._error_handler"),
                ("pox/datapaths/switch.py", "OFConnection._extract_message_xid"), ("pox/lib/ioworker/__init__.py", "RecocoIOLoop.run"),
@@ -105,7 +106,11 @@ class C10(Check):
                   "answers each Select they yield. What the ~50 decoders do with garbage is NOT modelled: it is observed, fed to the model as a table, and checked by the oracle "
                   "(window independence, exceptions contained).")
     trusted_base = ["model Model/Framing.lean (ctlLoop/swLoop) hand-written; tied by this correspondence run", "answering the Select operations that the two real I/O loop generators yield (the harness plays the select hub)"]
-    assumptions = ["message handlers do not disconnect the connection in the middle of a read (then Connection.read stops dispatching: that path is C09's)", "non-termination is detected by a budget of 4 s CPU time (or 32 s wall time when blocked) per read call", "recv returns at most the bytes asked for"]
+    assumptions = ["message handlers that disconnect the connection in the middle of a read are covered by ctl_disconnect_stops / ctl_disconnect_persists and the `disc` cases; what a handler does beyond raising or disconnecting is outside the model",
+                   "a message handler that RAISES is caught by both read loops (cases `hraise`); in the model handlers do not exist, so a raising handler and a returning one are the same step; a failure inside OFConnection._error_handler itself is not modelled",
+                   "sw_contained (no branch of swLoop yields `dead`) and siblings_untouched (feedAt is List.set) hold by construction of the model; that the real loops behave like it is what every run tests by driving the real RecocoIOLoop.run / OpenFlow_01_Task.run generators with three connections",
+                   "the no-over-read theorems constrain the offset a decoder reports; that a decoder does not PEEK past its window is the hypothesis WindowLocal (theorem sw_deliver_window_only), proved of the real decoders on well-formed messages by C01 and tested on every delivered window here (re-decoding it followed by other bytes)",
+                   "non-termination is detected by a budget of 4 s CPU time (or 32 s wall time when blocked) per read call", "recv returns at most the bytes asked for"]
     rule = ("case = (side, valid prefix messages, one malformed region, valid suffix messages, two sibling connections with valid traffic, cut positions); malformed region = every length value 0..len+8 of "
             "each of the 22 message types (corpus), type/version bytes, embedded lengths, truncations, byte flips, random bytes; non-trivial = the malformed region differs from a valid message")
 
